@@ -186,3 +186,22 @@ Check C20_source_kernels_profile_free :
     g_i128_div_rounded pf1 dflt n d om = g_i128_div_rounded pf2 dflt n d om /\
     g_u128_mul_u128 pf1 v v = g_u128_mul_u128 pf2 v v.
 Print Assumptions C20_source_kernels_profile_free.
+
+(* ---- the Decimal-level functions as translated from /repo's current source (gen/GenDec.v): the translated
+   function's outcome is accepted by the specification, for all well-formed operands ---- *)
+From FP Require Import GenDec GenTieDecDiv.
+
+Theorem C20_source_mul_div_profile_free :
+  forall pf1 pf2 m x y n, wf x = true -> wf y = true -> 0 <= n <= 255 ->
+    out_dec (g_Mul_mul pf1 m x y) = out_dec (g_Mul_mul pf2 m x y) /\
+    out_dec (g_Div_div pf1 m x y) = out_dec (g_Div_div pf2 m x y) /\
+    out_dec (g_MulRounded_mul_rounded pf1 m x y n) = out_dec (g_MulRounded_mul_rounded pf2 m x y n) /\
+    out_dec (g_DivRounded_div_rounded pf1 m x y n) = out_dec (g_DivRounded_div_rounded pf2 m x y n).
+Proof. exact src_muldiv_profile_free. Qed.
+Check C20_source_mul_div_profile_free :
+  forall pf1 pf2 m x y n, wf x = true -> wf y = true -> 0 <= n <= 255 ->
+    out_dec (g_Mul_mul pf1 m x y) = out_dec (g_Mul_mul pf2 m x y) /\
+    out_dec (g_Div_div pf1 m x y) = out_dec (g_Div_div pf2 m x y) /\
+    out_dec (g_MulRounded_mul_rounded pf1 m x y n) = out_dec (g_MulRounded_mul_rounded pf2 m x y n) /\
+    out_dec (g_DivRounded_div_rounded pf1 m x y n) = out_dec (g_DivRounded_div_rounded pf2 m x y n).
+Print Assumptions C20_source_mul_div_profile_free.
